@@ -52,22 +52,26 @@ Record st := mkSt {
   s_errno : bool;                  (* m_errno != 0 *)
   s_storerr : bool;                (* receive_storage_error was called *)
   s_ierr : bool;                   (* an internal_error would have been thrown *)
-  s_mem : nat                      (* ChunkManager: blocks accounted with the memory manager (allocate / deallocate) *)
+  s_mem : nat;                     (* ChunkManager: blocks accounted with the memory manager (allocate / deallocate) *)
+  s_retry : bool;                  (* m_delay_retry is scheduled (waiting 100 ms for chunk memory) *)
+  s_lim : option nat               (* blocks the memory manager still grants in total; None = no pressure *)
 }.
 
-Definition set_open s v := mkSt v (s_files s) (s_bits s) (s_ranges s) (s_pos s) (s_out s) (s_hq s) (s_nodes s) (s_delay s) (s_errno s) (s_storerr s) (s_ierr s) (s_mem s).
-Definition set_files s v := mkSt (s_open s) v (s_bits s) (s_ranges s) (s_pos s) (s_out s) (s_hq s) (s_nodes s) (s_delay s) (s_errno s) (s_storerr s) (s_ierr s) (s_mem s).
-Definition set_bits s v := mkSt (s_open s) (s_files s) v (s_ranges s) (s_pos s) (s_out s) (s_hq s) (s_nodes s) (s_delay s) (s_errno s) (s_storerr s) (s_ierr s) (s_mem s).
-Definition set_ranges s v := mkSt (s_open s) (s_files s) (s_bits s) v (s_pos s) (s_out s) (s_hq s) (s_nodes s) (s_delay s) (s_errno s) (s_storerr s) (s_ierr s) (s_mem s).
-Definition set_pos s v := mkSt (s_open s) (s_files s) (s_bits s) (s_ranges s) v (s_out s) (s_hq s) (s_nodes s) (s_delay s) (s_errno s) (s_storerr s) (s_ierr s) (s_mem s).
-Definition set_out s v := mkSt (s_open s) (s_files s) (s_bits s) (s_ranges s) (s_pos s) v (s_hq s) (s_nodes s) (s_delay s) (s_errno s) (s_storerr s) (s_ierr s) (s_mem s).
-Definition set_hq s v := mkSt (s_open s) (s_files s) (s_bits s) (s_ranges s) (s_pos s) (s_out s) v (s_nodes s) (s_delay s) (s_errno s) (s_storerr s) (s_ierr s) (s_mem s).
-Definition set_nodes s v := mkSt (s_open s) (s_files s) (s_bits s) (s_ranges s) (s_pos s) (s_out s) (s_hq s) v (s_delay s) (s_errno s) (s_storerr s) (s_ierr s) (s_mem s).
-Definition set_delay s v := mkSt (s_open s) (s_files s) (s_bits s) (s_ranges s) (s_pos s) (s_out s) (s_hq s) (s_nodes s) v (s_errno s) (s_storerr s) (s_ierr s) (s_mem s).
-Definition set_errno s v := mkSt (s_open s) (s_files s) (s_bits s) (s_ranges s) (s_pos s) (s_out s) (s_hq s) (s_nodes s) (s_delay s) v (s_storerr s) (s_ierr s) (s_mem s).
-Definition set_storerr s v := mkSt (s_open s) (s_files s) (s_bits s) (s_ranges s) (s_pos s) (s_out s) (s_hq s) (s_nodes s) (s_delay s) (s_errno s) v (s_ierr s) (s_mem s).
-Definition set_mem s v := mkSt (s_open s) (s_files s) (s_bits s) (s_ranges s) (s_pos s) (s_out s) (s_hq s) (s_nodes s) (s_delay s) (s_errno s) (s_storerr s) (s_ierr s) v.
-Definition set_ierr s := mkSt (s_open s) (s_files s) (s_bits s) (s_ranges s) (s_pos s) (s_out s) (s_hq s) (s_nodes s) (s_delay s) (s_errno s) (s_storerr s) true (s_mem s).
+Definition set_open s v := mkSt v (s_files s) (s_bits s) (s_ranges s) (s_pos s) (s_out s) (s_hq s) (s_nodes s) (s_delay s) (s_errno s) (s_storerr s) (s_ierr s) (s_mem s) (s_retry s) (s_lim s).
+Definition set_files s v := mkSt (s_open s) v (s_bits s) (s_ranges s) (s_pos s) (s_out s) (s_hq s) (s_nodes s) (s_delay s) (s_errno s) (s_storerr s) (s_ierr s) (s_mem s) (s_retry s) (s_lim s).
+Definition set_bits s v := mkSt (s_open s) (s_files s) v (s_ranges s) (s_pos s) (s_out s) (s_hq s) (s_nodes s) (s_delay s) (s_errno s) (s_storerr s) (s_ierr s) (s_mem s) (s_retry s) (s_lim s).
+Definition set_ranges s v := mkSt (s_open s) (s_files s) (s_bits s) v (s_pos s) (s_out s) (s_hq s) (s_nodes s) (s_delay s) (s_errno s) (s_storerr s) (s_ierr s) (s_mem s) (s_retry s) (s_lim s).
+Definition set_pos s v := mkSt (s_open s) (s_files s) (s_bits s) (s_ranges s) v (s_out s) (s_hq s) (s_nodes s) (s_delay s) (s_errno s) (s_storerr s) (s_ierr s) (s_mem s) (s_retry s) (s_lim s).
+Definition set_out s v := mkSt (s_open s) (s_files s) (s_bits s) (s_ranges s) (s_pos s) v (s_hq s) (s_nodes s) (s_delay s) (s_errno s) (s_storerr s) (s_ierr s) (s_mem s) (s_retry s) (s_lim s).
+Definition set_hq s v := mkSt (s_open s) (s_files s) (s_bits s) (s_ranges s) (s_pos s) (s_out s) v (s_nodes s) (s_delay s) (s_errno s) (s_storerr s) (s_ierr s) (s_mem s) (s_retry s) (s_lim s).
+Definition set_nodes s v := mkSt (s_open s) (s_files s) (s_bits s) (s_ranges s) (s_pos s) (s_out s) (s_hq s) v (s_delay s) (s_errno s) (s_storerr s) (s_ierr s) (s_mem s) (s_retry s) (s_lim s).
+Definition set_delay s v := mkSt (s_open s) (s_files s) (s_bits s) (s_ranges s) (s_pos s) (s_out s) (s_hq s) (s_nodes s) v (s_errno s) (s_storerr s) (s_ierr s) (s_mem s) (s_retry s) (s_lim s).
+Definition set_errno s v := mkSt (s_open s) (s_files s) (s_bits s) (s_ranges s) (s_pos s) (s_out s) (s_hq s) (s_nodes s) (s_delay s) v (s_storerr s) (s_ierr s) (s_mem s) (s_retry s) (s_lim s).
+Definition set_storerr s v := mkSt (s_open s) (s_files s) (s_bits s) (s_ranges s) (s_pos s) (s_out s) (s_hq s) (s_nodes s) (s_delay s) (s_errno s) v (s_ierr s) (s_mem s) (s_retry s) (s_lim s).
+Definition set_mem s v := mkSt (s_open s) (s_files s) (s_bits s) (s_ranges s) (s_pos s) (s_out s) (s_hq s) (s_nodes s) (s_delay s) (s_errno s) (s_storerr s) (s_ierr s) v (s_retry s) (s_lim s).
+Definition set_retry s v := mkSt (s_open s) (s_files s) (s_bits s) (s_ranges s) (s_pos s) (s_out s) (s_hq s) (s_nodes s) (s_delay s) (s_errno s) (s_storerr s) (s_ierr s) (s_mem s) v (s_lim s).
+Definition set_lim s v := mkSt (s_open s) (s_files s) (s_bits s) (s_ranges s) (s_pos s) (s_out s) (s_hq s) (s_nodes s) (s_delay s) (s_errno s) (s_storerr s) (s_ierr s) (s_mem s) (s_retry s) v.
+Definition set_ierr s := mkSt (s_open s) (s_files s) (s_bits s) (s_ranges s) (s_pos s) (s_out s) (s_hq s) (s_nodes s) (s_delay s) (s_errno s) (s_storerr s) true (s_mem s) (s_retry s) (s_lim s).
 
 (* ---------------------------------------------------------------- lists *)
 Fixpoint upd {A} (l : list A) (i : nat) (v : A) : list A :=
@@ -239,7 +243,7 @@ Definition is_checked (s : st) : bool :=
 
 (* HashTorrent::clear *)
 Definition ht_clear (s : st) : st :=
-  set_delay (set_errno (set_pos (set_out s None) O) false) false.
+  set_retry (set_delay (set_errno (set_pos (set_out s None) O) false) false) false.
 
 (* HashTorrent::queue returns early when "enough" chunks are outstanding.  How many is a tuning choice the
    property leaves open; the policy is probed on the compiled code (harness --probe: how many of
@@ -248,6 +252,10 @@ Definition ht_clear (s : st) : st :=
 Definition throttle (out : nat) : bool :=
   (Params.c09_throttle_small <? Params.c09_probe_pieces) &&
   (Params.c09_throttle_small <=? N.of_nat out).
+
+(* ChunkManager::allocate refuses: usage + chunk_size > limit *)
+Definition mem_full (s : st) : bool :=
+  match s_lim s with Some k => Nat.leb k (s_mem s) | None => false end.
 
 Definition out_val (s : st) : nat := match s_out s with Some k => k | None => O end.
 
@@ -275,6 +283,13 @@ Fixpoint queue (fuel : nat) (quick : bool) (s : st) : st :=
         | None => queue_tail (set_pos s n)
         | Some p =>
             let s0 := set_pos s p in
+            (* ChunkList::get on an unmapped node asks ChunkManager::allocate first: ENOMEM touches no file.
+               quick: any error other than ENOENT just returns; full: retry in 100 ms if nothing is outstanding
+               (otherwise the next finished chunk calls queue again) *)
+            if mem_full s0 then
+              (if quick then (if negb (Nat.eqb (out_val s0) 0) then set_ierr s0 else s0)
+               else if Nat.eqb (out_val s0) 0 then set_retry s0 true else s0)
+            else
             let (s1, r) := chunk_get s0 p false in
             if quick then
               if negb (Nat.eqb (out_val s1) 0) then set_ierr s1
@@ -428,7 +443,19 @@ Fixpoint run_all (fuel : nat) (s : st) : st :=
 
 Definition run_all_fuel (s : st) : nat := S (length (s_nodes s) - s_pos s + length (s_hq s)).
 
-Inductive op := OOpen | OCheck (quick : bool) | ODeliver (i : nat) | OStop | OClose | OTick | ORunAll.
+(* m_delay_retry fires: HashTorrent::queue(false), which throws when the checker is not running *)
+Definition do_retry_fire (s : st) : st :=
+  if negb (s_retry s) then s
+  else
+    let s0 := set_retry s false in
+    if is_checking s0 then queue (queue_fuel s0) false s0 else set_ierr s0.
+
+(* the clock moves past every pending timer: the completion / error notification (due at once) first, then the
+   100 ms retry, then whatever notification that retry scheduled *)
+Definition do_advance (s : st) : st := do_tick (do_retry_fire (do_tick s)).
+
+Inductive op := OOpen | OCheck (quick : bool) | ODeliver (i : nat) | OStop | OClose | OTick | ORunAll
+              | OLimit (l : option nat) | OAdvance.
 
 Definition step (s : st) (o : op) : st :=
   match o with
@@ -439,6 +466,8 @@ Definition step (s : st) (o : op) : st :=
   | OClose => do_close s
   | OTick => do_tick s
   | ORunAll => run_all (run_all_fuel s) s
+  | OLimit l => set_lim s l
+  | OAdvance => do_advance s
   end.
 
 Definition run (ops : list op) (s : st) : st := fold_left step ops s.
@@ -449,7 +478,7 @@ Global Opaque throttle.
 
 (* a freshly added download: closed, nothing allocated *)
 Definition init (fs : list fnode) : st :=
-  mkSt false fs None [] O None [] [] false false false false O.
+  mkSt false fs None [] O None [] [] false false false false O false None.
 
 (* what the torrent describes + what is on disk, before the library touched anything *)
 Definition fresh_file (size : N) (pad : bool) (d : fstate) : fnode := mkF size pad d false false.
